@@ -472,6 +472,24 @@ pub fn run_one(path: &str, workdir: &str, index: usize) {
                         r
                     }
                 }
+                "drop" => {
+                    // the connection is cut without a close handshake (TCP: the same as disc)
+                    let sid: usize = op[1].parse().unwrap();
+                    acting = Some(sid);
+                    if conns[sid].st != St::Open {
+                        "DEAD".to_string()
+                    } else {
+                        let _ = conns[sid].stream.shutdown(Shutdown::Both);
+                        conns[sid].st = St::Closed;
+                        // no answer can tell when the server noticed: wait for its side of the connection to be gone
+                        let t0 = Instant::now();
+                        let before = safe_dump(&node, false);
+                        while t0.elapsed() < Duration::from_millis(1500) && safe_dump(&node, false) == before {
+                            std::thread::sleep(Duration::from_millis(5));
+                        }
+                        "Dropped".to_string()
+                    }
+                }
                 "disc" => {
                     let sid: usize = op[1].parse().unwrap();
                     acting = Some(sid);
